@@ -99,6 +99,8 @@ type Tr struct {
 	paramEnv  map[string]Val
 	debugVals map[string][]ssa.Value // source var name -> values (from DebugRef)
 	retCount  int
+	closureCall  bool // the call being translated may run a closure of this function
+	keepInternal bool // havocAll: keep the internal (first-party accounting) ghost variables
 	ptrArgs   map[string]ssa.Value // callMods: callee parameter name -> argument value
 	preOnly   bool // applyContract: check the preconditions only (go statements)
 	locals    []*ssa.Alloc
@@ -275,6 +277,9 @@ func (t *Tr) havocAll(st *State, exceptGhost bool) {
 		if _, ok := t.vals[al]; !ok {
 			continue
 		}
+		if al.Heap && t.closureCall {
+			continue // a closure of this function may be running: it can write the captured variables
+		}
 		a := t.addrOfTerm(t.vals[al].S, al.Type().Underlying().(*types.Pointer).Elem())
 		if a.Kind == aArray {
 			continue
@@ -288,11 +293,13 @@ func (t *Tr) havocAll(st *State, exceptGhost bool) {
 		}
 	}()
 	keep := map[string]string{}
-	if exceptGhost {
-		for n := range t.vc.heapSort {
-			if strings.HasPrefix(n, "G_") {
-				keep[n] = t.heapGet(st, n, t.vc.heapSort[n])
-			}
+	for n := range t.vc.heapSort {
+		if !strings.HasPrefix(n, "G_") {
+			continue
+		}
+		g := t.w.CS.Ghosts[strings.TrimPrefix(n, "G_")]
+		if exceptGhost || (t.keepInternal && g != nil && g.Internal) {
+			keep[n] = t.heapGet(st, n, t.vc.heapSort[n])
 		}
 	}
 	t.genCount++
@@ -598,8 +605,12 @@ func (t *Tr) val(v ssa.Value) Term {
 		t.vals[v] = x
 		return x
 	case *ssa.Function:
+		// function values: distinct small negative constants (like package-level variables)
 		name := "fn_" + mangle(funcKey(v))
-		t.vc.declFun(name, fmt.Sprintf("(declare-const %s Int)\n(assert (< %s 0))", name, name))
+		if !t.vc.funSeen[name] {
+			t.vc.nFuncs++
+			t.vc.declFun(name, fmt.Sprintf("(define-fun %s () Int (- %d))", name, 2048+t.vc.nFuncs))
+		}
 		x := Term{name, SInt_}
 		return x
 	case *ssa.Builtin:
